@@ -23,9 +23,10 @@ import Nq.Lemmas.C20Substdio
 import Nq.Lemmas.C20Dns
 import Nq.Lemmas.C20Fixed
 import Nq.Lemmas.C20Cdb
+import Nq.Lemmas.C20Caps
+import Nq.Gen.QQClose
 import Nq.Gen.C20Bounds
 import Nq.Lemmas.SpawnL
-import Nq.Lemmas.SendL
 import Nq.Pop3
 
 namespace Nq.Props.C20
@@ -37,7 +38,8 @@ open Nq.Gen.C20Bounds
 /-- every guard / buffer declaration the translator looks for was found in /repo -/
 theorem C20_sources_recognised : unrecognised = [] := by decide
 
-/-- the overflow checks of gen_allocdefs.h, stralloc_catb.c, stralloc_opyb.c, quote.c and the bounds
+/-- (a tripwire, not a semantic statement: each Boolean says "the translator's pattern for this check matched the
+source text"; what the checks achieve is stated by the theorems below over the models) the overflow checks of gen_allocdefs.h, stralloc_catb.c, stralloc_opyb.c, quote.c and the bounds
 checks of dns.c, spawn.c, qmail-pop3d.c, qmail-send.c, qmail-remote.c are present in the source, and the counters of
 quote.c doit()/quote_need() are unsigned (commit 26e354b) -/
 theorem C20_checks_present :
@@ -273,15 +275,31 @@ end substdio
 section fixed
 open Nq.FixedBuf
 
-/-- **qmail-qmqpd `buf[1000]`**: for every declared length every store index is inside `buf`. -/
-theorem C20_qmqpd_buf (len : Nat) : ∀ i ∈ qmqpdStores qmqpdGuard len, i < qmqpdBuf := by
+/-- **qmail-qmqpd `buf[1000]`**: for every declared length and every point at which the stream may end,
+every store index is inside `buf`.  (The index list `qmqpdStores` is compared with what the real getbuf()
+stores, case by case, by harness/c20_fixed.c — DISAGREE channel.) -/
+theorem C20_qmqpd_buf (len avail : Nat) : ∀ i ∈ qmqpdStores qmqpdGuard len avail, i < qmqpdBuf := by
   intro i hi
   unfold qmqpdStores at hi
   have hg : qmqpdGuard ≤ qmqpdBuf := by decide
   have hb : 0 < qmqpdBuf := by decide
   by_cases c : len ≥ qmqpdGuard
-  · rw [if_pos c] at hi; simp at hi; omega
-  · rw [if_neg c] at hi; exact mem_range_append_lt (by omega) hi
+  · rw [if_pos c] at hi
+    simp only [List.mem_append] at hi
+    rcases hi with hi | hi
+    · by_cases c2 : min len avail > 0
+      · rw [if_pos c2] at hi; simp at hi; omega
+      · rw [if_neg c2] at hi; cases hi
+    · by_cases c2 : avail > len
+      · rw [if_pos c2] at hi; simp at hi; omega
+      · rw [if_neg c2] at hi; cases hi
+  · rw [if_neg c] at hi
+    simp only [List.mem_append, List.mem_range] at hi
+    rcases hi with hi | hi
+    · have := Nat.min_le_left len avail; omega
+    · by_cases c2 : avail > len
+      · rw [if_pos c2] at hi; simp at hi; omega
+      · rw [if_neg c2] at hi; cases hi
 
 /-- **qmail-qmtpd `buf[1000]`, sender** -/
 theorem C20_qmtpd_sender_buf (len : Nat) : ∀ i ∈ qmtpdSenderStores qmtpdSenderGuard len, i < qmtpdBuf := by
@@ -323,6 +341,25 @@ theorem C20_qmtpd_reply_bufs (d1 d2 d rl : Nat) (h1 : d1 ≤ 20) (h2 : d2 ≤ 20
   unfold qmtpdKokLen qmtpdReplyLen
   omega
 
+/-- every result text that can reach the reply composition meets the hypothesis `rl < qqErrstr` of
+`C20_qmtpd_reply_bufs`, so the reply fits `buf`: the texts of qmail_close()'s switch, its range defaults and
+"crashed" text (all regenerated from qmail.c into Nq.Gen.QQClose by C07's translator), a custom text from the
+queue program (at most `errMax` bytes, see `C20_qq_errstr`), and qmail-qmtpd's own two refusals (the byte
+strings of the C07 model, tied by C07's correspondence).  Not covered by a generated table: the one-off
+"Zqq waitpid surprise (#4.3.0)" (29 bytes). -/
+theorem C20_qmtpd_reply_texts :
+    (∀ t ∈ Nq.Gen.QQClose.table.map (·.2) ++ [Nq.Gen.QQClose.permText, Nq.Gen.QQClose.tempText, Nq.Gen.QQClose.crashedText,
+        Nq.Netstring.Qmtp.sUnacceptable, Nq.Netstring.Qmtp.sTooBig],
+      t.length < qqErrstr ∧ qmtpdReplyLen 20 t.length ≤ qmtpdBuf) ∧
+    Nq.Gen.QQClose.errMax < qqErrstr ∧ Nq.Gen.QQClose.errMax = qqErrGuard := by
+  refine ⟨?_, by decide, by decide⟩
+  have h : ((Nq.Gen.QQClose.table.map (·.2) ++ [Nq.Gen.QQClose.permText, Nq.Gen.QQClose.tempText, Nq.Gen.QQClose.crashedText,
+        Nq.Netstring.Qmtp.sUnacceptable, Nq.Netstring.Qmtp.sTooBig]).all
+      (fun t => decide (t.length < qqErrstr) && decide (qmtpdReplyLen 20 t.length ≤ qmtpdBuf))) = true := by decide
+  intro t ht
+  have := List.all_eq_true.mp h t ht
+  simpa using this
+
 /-- **qmail-getpw `username[32]`** -/
 theorem C20_getpw_username (k : Nat) : ∀ i ∈ getpwStores getpwGuard k, i < getpwUserlen := by
   intro i hi
@@ -332,9 +369,23 @@ theorem C20_getpw_username (k : Nat) : ∀ i ∈ getpwStores getpwGuard k, i < g
   · rw [if_pos c] at hi; exact mem_range_append_lt (by omega) hi
   · rw [if_neg c] at hi; simp at hi
 
+/-- **userext() as a whole**: for every local part, every copy the backwards scan performs (`getpwProbes`:
+the positions where the NUL or a break character stands and `extension - local < sizeof(username)`) stays
+inside `username`; positions at or beyond the buffer size are skipped, never truncated into it. -/
+theorem C20_getpw_userext (brk : Byte) (loc : Bytes) :
+    ∀ k ∈ getpwProbes getpwGuard brk loc, k < getpwUserlen ∧ k ≤ loc.length ∧
+      ∀ i ∈ getpwStores getpwGuard k, i < getpwUserlen := by
+  intro k hk
+  unfold getpwProbes at hk
+  simp only [List.mem_filter, List.mem_reverse, List.mem_range, Bool.and_eq_true, decide_eq_true_eq] at hk
+  have hg : getpwGuard ≤ getpwUserlen := by decide
+  exact ⟨by omega, by omega, C20_getpw_username k⟩
+
 /-- **qmail.c `errstr[256]`**: however many bytes the queue program writes on descriptor 6, every
 store (the bytes read and the final NUL) is inside `errstr`. -/
-theorem C20_qq_errstr (avail : Nat) : ∀ i ∈ errstrStores qqErrGuard avail, i < qqErrstr := by
+theorem C20_qq_errstr (avail : Nat) :
+    (∀ i ∈ errstrStores qqErrGuard avail, i < qqErrstr) ∧ (errstrLoop qqErrGuard avail 0).2 ≤ qqErrGuard := by
+  refine ⟨?_, (errstrLoop_bound qqErrGuard avail 0 (Nat.zero_le _)).2⟩
   intro i hi
   unfold errstrStores at hi
   have hg : qqErrGuard < qqErrstr := by decide
@@ -344,7 +395,7 @@ theorem C20_qq_errstr (avail : Nat) : ∀ i ∈ errstrStores qqErrGuard avail, i
   · have := b1 i hi; omega
   · omega
 
-/-- **spawn.c slots**: a delivery is started only in a slot `< auto_spawn` (the `d[]` array has
+/-- **spawn.c slots** (a statement about the C18 model `Nq.Spawn.docmd`, tied to spawn.c by C18's harness): a delivery is started only in a slot `< auto_spawn` (the `d[]` array has
 `auto_spawn + 10` elements) that was free, and `read(…,inbuf,128)` asks for no more than `inbuf` holds. -/
 theorem C20_spawn_slot (st : Nq.Spawn.St) :
     (∀ slot s r a, Nq.Spawn.Ev.spawnCall slot s r a ∈ (Nq.Spawn.docmd st).2 →
@@ -366,34 +417,53 @@ theorem C20_spawn_slot (st : Nq.Spawn.St) :
     · rw [e] at hne; exact absurd rfl hne
     · exact hc.1
 
-/-- **spawn.c report truncation**: a child's accumulated output never exceeds `truncreport` once it
-has been cut, and the cut only *lowers* `output.len` (so the shortened length is inside the block). -/
-theorem C20_spawn_truncreport (k : Nq.Spawn.Kind) (out chunk : Bytes)
-    (ht : Nq.Spawn.truncreport k > Nq.Gen.SpawnTexts.TRUNC_MIN) (ho : out.length ≤ Nq.Spawn.truncreport k) :
-    (Nq.Spawn.accumulate k out chunk).length ≤ Nq.Spawn.truncreport k ∧
-    Nq.Spawn.truncreport k - Nq.Gen.SpawnTexts.TRUNCMESS.length - Nq.Gen.SpawnTexts.TRUNC_SLACK ≤ (out ++ chunk).length ∨
-    (Nq.Spawn.accumulate k out chunk) = out ++ chunk ∧ (out ++ chunk).length ≤ Nq.Spawn.truncreport k := by
+/-- **qmail-lspawn report truncation** (`truncreport = 3000 > 100`; C18 model `Nq.Spawn.accumulate`): after any
+chunk the accumulated child output is at most `truncreport` bytes (whatever it was before), and when the cut
+happens it only *lowers* `output.len` (the shortened length lies inside the block already filled). -/
+theorem C20_lspawn_truncreport (out chunk : Bytes) :
+    (Nq.Spawn.accumulate .l out chunk).length ≤ Nq.Spawn.truncreport .l ∧
+    ((out ++ chunk).length > Nq.Spawn.truncreport .l →
+      Nq.Spawn.truncreport .l - Nq.Gen.SpawnTexts.TRUNCMESS.length - Nq.Gen.SpawnTexts.TRUNC_SLACK ≤ (out ++ chunk).length ∧
+      (Nq.Spawn.accumulate .l out chunk).length = Nq.Spawn.truncreport .l - Nq.Gen.SpawnTexts.TRUNC_SLACK) := by
   unfold Nq.Spawn.accumulate
   have e1 : Nq.Gen.SpawnTexts.TRUNCMESS.length = 31 := by decide
   have e2 : Nq.Gen.SpawnTexts.TRUNC_SLACK = 3 := by decide
   have e3 : Nq.Gen.SpawnTexts.TRUNC_MIN = 100 := by decide
+  have e4 : Nq.Spawn.truncreport .l = 3000 := by decide
   simp only
-  by_cases c : Nq.Spawn.truncreport k > Nq.Gen.SpawnTexts.TRUNC_MIN ∧ (out ++ chunk).length > Nq.Spawn.truncreport k
-  · rw [if_pos c]; left
+  by_cases c : Nq.Spawn.truncreport .l > Nq.Gen.SpawnTexts.TRUNC_MIN ∧ (out ++ chunk).length > Nq.Spawn.truncreport .l
+  · rw [if_pos c]
     simp only [List.length_append, List.length_take] at c ⊢
     omega
-  · rw [if_neg c]; right
-    refine ⟨rfl, ?_⟩
-    have : ¬ (out ++ chunk).length > Nq.Spawn.truncreport k := fun h => c ⟨ht, h⟩
+  · rw [if_neg c]
+    have : ¬ (out ++ chunk).length > Nq.Spawn.truncreport .l := fun h => c ⟨by omega, h⟩
+    exact ⟨by omega, fun h => absurd h this⟩
+
+/-- hence for every sequence of chunks read from the child, starting from the empty output -/
+theorem C20_lspawn_output_bounded (chunks : List Bytes) :
+    (chunks.foldl (Nq.Spawn.accumulate .l) []).length ≤ Nq.Spawn.truncreport .l := by
+  suffices h : ∀ out : Bytes, out.length ≤ Nq.Spawn.truncreport .l →
+      (chunks.foldl (Nq.Spawn.accumulate .l) out).length ≤ Nq.Spawn.truncreport .l from h [] (Nat.zero_le _)
+  induction chunks with
+  | nil => intro out h; exact h
+  | cons c r ih => intro out _; exact ih _ (C20_lspawn_truncreport out c).1
+
+/-- **qmail-rspawn has no truncation** (`truncreport = 0`, the `> 100` test is false): the child's output is kept
+whole, so it is bounded only by memory — growth goes through `stralloc_readyplus` (`C20_readyplus_sound`:
+refusal, not corruption, when it cannot grow).  This is exhaustion by a trusted child, not a bounds matter. -/
+theorem C20_rspawn_output_unbounded (out chunk : Bytes) : Nq.Spawn.accumulate .r out chunk = out ++ chunk := by
+  unfold Nq.Spawn.accumulate
+  have : ¬ (Nq.Spawn.truncreport .r > Nq.Gen.SpawnTexts.TRUNC_MIN ∧ (out ++ chunk).length > Nq.Spawn.truncreport .r) := by
+    intro h; have : Nq.Spawn.truncreport .r = 0 := by decide
+    have e3 : Nq.Gen.SpawnTexts.TRUNC_MIN = 100 := by decide
     omega
+  simp only
+  rw [if_neg this]
 
-/-- **qmail-send REPORTMAX**: whatever a spawner writes on the report descriptor, `dline[c].len`
-never exceeds REPORTMAX. -/
-theorem C20_send_reportmax (env : Nq.SendReport.Env) (st : Nq.SendReport.St) (s : Bytes)
-    (h : st.dlen ≤ Nq.Gen.REPORTMAX) : (Nq.SendReport.feed env st s).1.dlen ≤ Nq.Gen.REPORTMAX :=
-  Nq.Lemmas.SendL.feed_dlen env st s h
+/- qmail-send REPORTMAX: `dline[c].len ≤ REPORTMAX` for every report stream is `Nq.Props.C18.C18_send_bound`
+   (over `Nq.SendReport.feed`); it is cited, not restated, here. -/
 
-/-- **qmail-pop3d msgno()**: an accepted message number is an index `< numm` that fits `int`. -/
+/-- **qmail-pop3d msgno()** (a statement about the C19 model `Nq.Pop3.msgno`, tied to qmail-pop3d.c by C19's harness): an accepted message number is an index `< numm` that fits `int`. -/
 theorem C20_pop3_msgno (s : Nq.Pop3.Sess) (arg : Bytes) (i : Nat) (h : Nq.Pop3.msgno s arg = .ok i) :
     i < s.msgs.length ∧ i < Nq.Pop3.INT_MAX := by
   unfold Nq.Pop3.msgno at h
@@ -412,6 +482,36 @@ theorem C20_pop3_msgno (s : Nq.Pop3.Sess) (arg : Bytes) (i : Nat) (h : Nq.Pop3.m
           · cases h
           · cases h; omega
         · cases h
+
+/-! ### length caps -/
+
+/-- **netstring length cap** (qmail-qmtpd getlen(), model `Nq.Netstring.getlen` of C07): for EVERY byte stream a
+length that getlen() returns is at most `10·200000000 + 9 = 2000000009 < 2³¹`, so the `int i` counters that
+the callers compare with the `unsigned long len` (`for (i = 0;i < len;++i)`) cannot overflow; larger
+declarations end in `resources()` / `badproto()`.  The cap is the constant in the source (both translators agree). -/
+theorem C20_qmtpd_getlen_cap (inp rest : Bytes) (v : Nat) (h : Nq.Netstring.getlen qmtpdLenCap 0 inp = .ok v rest) :
+    v ≤ qmtpdLenCap * 10 + 9 ∧ v < 2147483648 ∧ qmtpdLenCap = Nq.Gen.C07.qmtpLenMax := by
+  have := qmtp_getlen_le qmtpdLenCap inp 0 v rest (Nat.zero_le _) h
+  have e : qmtpdLenCap = 200000000 := by decide
+  exact ⟨this, by omega, by decide⟩
+
+/-- the same for qmail-qmqpd getlen() (on getbyte / bytesleft), model `Nq.Netstring.Qmqp.getlen` -/
+theorem C20_qmqpd_getlen_cap (bl : Nat) (inp rest : Bytes) (v bl' : Nat)
+    (h : Nq.Netstring.Qmqp.getlen qmqpdLenCap bl 0 inp = .ok (v, bl') rest) :
+    v ≤ qmqpdLenCap * 10 + 9 ∧ v < 2147483648 ∧ qmqpdLenCap = Nq.Gen.C07.qmqpLenMax := by
+  have := qmqp_getlen_le qmqpdLenCap bl inp 0 v bl' rest (Nat.zero_le _) h
+  have e : qmqpdLenCap = 200000000 := by decide
+  exact ⟨this, by omega, by decide⟩
+
+/-- **smtptext cap** (qmail-remote.c get(): CR dropped, appended only while `smtptext.len < HUGESMTPTEXT`): for
+every reply stream the accumulated text never exceeds HUGESMTPTEXT bytes, and the byte-by-byte accumulation is
+exactly the `textOf` of the C09 model (which C09's harness compares with the real smtpcode()). -/
+theorem C20_smtptext_cap (raw : Bytes) :
+    (raw.foldl (smtptextStep Nq.Gen.HUGESMTPTEXT) []).length ≤ Nq.Gen.HUGESMTPTEXT ∧
+    raw.foldl (smtptextStep Nq.Gen.HUGESMTPTEXT) [] = Nq.RemoteSmtp.textOf raw := by
+  refine ⟨smtptext_fold_le _ raw [] (Nat.zero_le _), ?_⟩
+  rw [smtptext_fold_eq _ raw [] (Nat.zero_le _)]
+  simp [Nq.RemoteSmtp.textOf]
 
 end fixed
 
